@@ -1,6 +1,7 @@
 """Builder-level cases: generated (task classes, config file tree, context) triples built by the real code and by the Lean
 builder model (TCV.Config / TCV.Build), plus an executable reference (refbuild) used as oracle."""
 import copy
+import re
 import json
 
 from tcv import pipeline as pl, gen
@@ -323,9 +324,28 @@ def gen_wildcard_case(rng):
             return
         if d.get('tasks'):
             full = set(los(d['tasks'])) == set(classes)
-            d['tasks'] = '*' if full and rng.random() < 0.8 else [rn(x) for x in los(d['tasks'])]
+            r = rng.random()
+            if full and r < 0.5:
+                d['tasks'] = '*'
+            elif full and r < 0.85:
+                # partial wildcards over the Python class names: the public and the private classes (`T*`, `_T*`), any class (`*T*`);
+                # (a wildcard that matches nothing is an ImportError: only patterns with a match are written)
+                priv = any(x.startswith('_') for x in new)
+                pub = any(not x.startswith('_') for x in new)
+                if priv and pub:
+                    d['tasks'] = rng.choice([['glob:T*', 'glob:_T*'], ['glob:_T*', 'glob:T*'], ['glob:*T*'], ['glob:TK*', 'glob:_T*']])
+                else:
+                    d['tasks'] = rng.choice([['glob:*T*'], ['glob:T*'] if pub else ['glob:_T*'], ['glob:TK*'] if pub else ['glob:_TK*']])
+            else:
+                d['tasks'] = [rn(x) for x in los(d['tasks'])]
         if d.get('excluded_tasks'):
             d['excluded_tasks'] = [rn(x) for x in los(d['excluded_tasks'])]
+            if rng.random() < 0.3:
+                import re as _re
+                cands = [g for g in ['TK1*', '_T*', 'TK*2_', 'T*0_', '*1_'] if any(
+                    _re.compile(_re.sub(r'((?<=([^.]))|^)\*', '.*', g)).match(pl.pyname(x)) for x in new)]
+                if cands:
+                    d['excluded_tasks'] = ['glob:' + rng.choice(cands)]
     for d in spec['files'].values():
         if isinstance(d, dict):
             fix(d)
@@ -407,6 +427,17 @@ def expand_star(spec):
         for f in ('tasks', 'excluded_tasks'):
             if d.get(f) == '*' or d.get(f) == ['*']:
                 d[f] = star_tasks(spec)
+            elif isinstance(d.get(f), list) and any(isinstance(x, str) and x.startswith('glob:') for x in d[f]):
+                # a partial wildcard stands for every class of the module whose Python name matches from its start (`*` = any text),
+                # in definition order
+                out = []
+                for x in d[f]:
+                    if isinstance(x, str) and x.startswith('glob:'):
+                        rx = re.compile(re.sub(r'((?<=([^.]))|^)\*', '.*', x[5:]))
+                        out += [cid for cid in star_tasks(spec) if rx.match(pl.pyname(cid))]
+                    else:
+                        out.append(x)
+                d[f] = out
         return d
     return {**spec, 'files': {k: ex(v) for k, v in spec['files'].items()}}
 
